@@ -97,7 +97,7 @@ CasesDeep == {Case(2, 2, <<1, 131>>, <<"base", "witness">>, 1), Case(2, 2, <<3, 
 WalkCases(ws) == {[c EXCEPT !.walk = w] : c \in CasesQ, w \in ws}
 WalkCasesQ == WalkCases(1..2)
 WalkCasesT == WalkCases(1..12)
-ModelCases == {Case(2, 2, <<1, 131>>, <<"base", "witness">>, 1), Case(2, 1, <<3, 3>>, <<"base", "forkid">>, 1),
-               Case(2, 2, <<130, 2>>, <<"witness", "base">>, 1)}
+ModelCases == {Case(2, 2, <<1, 131>>, <<"base", "witness">>, 1), Case(2, 1, <<3, 3>>, <<"base", "forkid">>, 1)}
+ModelCasesM == ModelCases \cup {Case(2, 2, <<130, 2>>, <<"witness", "base">>, 1), Case(3, 2, <<129, 3, 2>>, <<"witness", "base", "base">>, 1)}
 ModelCasesT == CasesA \cup CasesB
 =============================================================================
